@@ -27,14 +27,13 @@ package hrw
 // the sorted list is exactly what sort.Sort guarantees for any Less).
 //@ specfunc scoreOf(n *RendezvousHashNode, key string) float64
 
-// Score: that the result is a function of the node and the key is assumed (lemma: floating point
+// Score: that the result is a function of the node and the key is assumed (rules_only: floating point
 // and the hash are not modelled); what is verified is that the hash is fed the whole decoded key
 // followed by the whole label - a truncated input would make distinct nodes tie.
 //@ func RendezvousHashNode.Score
-//@   requires rhn != nil && rhn.RHash != nil
-//@   modifies *
+//@   rules_only
 //@   assert hashes_whole_key_and_label: at Hash.Write#0 :: len(arg0) == len(keyBytes) + len(rhn.Label)
-//@   lemma function_of_node_and_key: result == scoreOf(rhn, key)
+//@   ensures function_of_node_and_key: result == scoreOf(rhn, key)
 
 //@ func RendezvousNodesByScore.Less
 //@   requires 0 <= i && i < len(a.nodes) && 0 <= j && j < len(a.nodes) && a.nodes[i] != nil && a.nodes[j] != nil
